@@ -2,6 +2,7 @@ package main
 
 import (
 	"fmt"
+	"path/filepath"
 	"runtime"
 	"sort"
 	"sync"
@@ -131,8 +132,43 @@ func c01FullRestart(c *lib.Ctx) {
 		// progress, maybe a checkpoint, more progress, crash at a seeded logical point
 		pos = min(o.perSplit, pos+3+r.Intn(o.perSplit/2))
 		x.src.SetLimit(pos)
-		mode := r.Intn(5)
+		mode := r.Intn(6)
+		var publishLater func() // mode 5: releases the held publication
 		switch mode {
+		case 5: // every member has acknowledged the checkpoint, its publication is still in flight when the workers die
+			x.waitCaughtUp()
+			release := make(chan struct{})
+			held := make(chan struct{})
+			var once sync.Once
+			x.cl.Loc.HoldWrite = func(path string) {
+				if filepath.Ext(path) == ".snapshot" {
+					first := false
+					once.Do(func() { first = true })
+					if first {
+						close(held)
+						<-release
+					}
+				}
+			}
+			for dl := time.Now().Add(5 * time.Second); time.Now().Before(dl); {
+				x.cl.TickCheckpoint()
+				select {
+				case <-held:
+					dl = time.Now()
+				case <-time.After(2 * time.Millisecond):
+				}
+			}
+			select {
+			case <-held:
+				x.logf("crash point: checkpoint acknowledged by every member, the write of its job snapshot is in flight")
+				c.Feat("crashes_with_publication_in_flight", 1)
+				var relOnce sync.Once
+				publishLater = func() { relOnce.Do(func() { close(release) }) }
+			default:
+				close(release)
+				x.logf("crash point: idle (no checkpoint could be started)")
+			}
+			x.cl.Loc.HoldWrite = nil
 		case 0: // crash with an idle pipeline right after a published checkpoint
 			x.waitCaughtUp()
 			x.checkpoint(10 * time.Second)
@@ -192,7 +228,21 @@ func c01FullRestart(c *lib.Ctx) {
 			c.Feat("crashes_during_checkpoint", 1)
 		}
 		c.Feat(fmt.Sprintf("crash_mode_%d", mode), 1)
-		jobToo := r.Intn(4) == 0
+		jobToo := r.Intn(4) == 0 && publishLater == nil
+		if publishLater != nil {
+			// the publication completes while the job deploys the next assembly (at the first operator Deploy call):
+			// the assembly restores from the checkpoint that was current when the job started it, operators AND sources
+			prev := x.cl.OnOperatorDeploy
+			x.cl.Lock()
+			x.cl.OnOperatorDeploy = func(rec cluster.DeployRec) {
+				if prev != nil {
+					prev(rec)
+				}
+				publishLater()
+			}
+			x.cl.Unlock()
+			defer publishLater()
+		}
 		x.replaceAllWith(func() {
 			if jobToo {
 				// the job process dies as well and restarts from its storage (LoadCheckpoint picks the newest snapshot)
